@@ -85,6 +85,7 @@ func c07ListRun(c c07ListCase, o *hx.Obs) {
 		return
 	}
 	root := c.Module.Root()
+	schemaClasses(o, c.Module)
 	mm, err := loadDM(c.Module)
 	if err != nil {
 		o.Failf("harness|schema-rejected", "generated schema does not load: %v\n%s", err, c.Module.Yang())
@@ -257,6 +258,7 @@ func c07SiblingRun(c c07SiblingCase, o *hx.Obs) {
 		return
 	}
 	root := c.Module.Root()
+	schemaClasses(o, c.Module)
 	mm, err := loadDM(c.Module)
 	if err != nil {
 		o.Failf("harness|schema-rejected", "generated schema does not load: %v\n%s", err, c.Module.Yang())
